@@ -245,8 +245,7 @@ theorem timestep_order (K : Kernels) (q : GQmc) (beta : Rat) (cfg : Config) (rs 
       let c := if shouldDoClusterUpdate q then K.cluster b.1 b.2 else b
       flipFreeBits c.1 c.2 := by
   unfold timestep shouldDoLoopUpdate
-  simp only
-  split <;> split <;> rfl
+  rfl
 
 /-- Hence every configuration invariant kept by the four sub-updates is kept by `timestep`,
 whatever the flags. -/
@@ -304,10 +303,9 @@ def constSite : Interaction :=
 
 example : ∃ q, Reach q ∧ shouldDoClusterUpdate q = true := by
   refine ⟨{ GQmc.init true with bonds := [constSite], hasClusterEdges := true }, ?_, rfl⟩
-  exact Reach.add (Reach.init true) (by rfl)
+  exact Reach.add (i := constSite) (Reach.init true) (by rfl)
 
-/-- …and one for which it is closed although a cluster edge exists (a symmetry-breaking term) -/
-def fieldSite : Interaction :=
-  { itype := .diagonal, mat := [1, 0], n := 1, vars := [0], constDiag := false }
+/-- a draw is never mapped to a zero-weight exit; with all weights zero there is no exit at all -/
+example : pickIdx (0 : Rat) [0, 0] = none := by norm_num [pickIdx]
 
 end Qmc.C04
